@@ -470,6 +470,33 @@ def it_next(ex, st, callee, args):
     return run_pipe(ex, st, iter_slot(ex, p), 'next')
 
 
+@h(r'^<.* as Iterator>::nth$')
+def it_nth(ex, st, callee, args):
+    """Iterator::nth on a stage-free iterator: item n of the remaining ones (fork over n), consuming n + 1 items"""
+    p = args[0]
+    it = ex.deref(p)
+    if not isinstance(it, Iter) or it.stages or it.rev: return NotImplemented
+    n = args[1]; rem = it.remaining()
+    slot = iter_slot(ex, p)
+    def hit(k):
+        def t(ex, st, a):
+            it2 = a[0].get()
+            it2.pos += k
+            return some(it2.take_item())
+        return t
+    def miss(ex, st, a):
+        it2 = a[0].get(); it2.pos = it2.end
+        return none()
+    alts = []
+    for k in range(rem):
+        c = z3.simplify(n == k)
+        if z3.is_false(c): continue
+        alts.append((c, hit(k)))
+    c = z3.simplify(Not(ULT(n, rem)))
+    if not z3.is_false(c): alts.append((c, miss))
+    return Fork(alts, args=[slot])
+
+
 @h(r'^<.* as Iterator>::collect::<(.*)>$')
 def it_collect(ex, st, callee, args):
     it = ex.deref(args[0])
